@@ -95,6 +95,18 @@ func resolveBufRoles(p *Prog) *bufRoles {
 		if fr, ok := asFieldLoad(v); ok && fr.SName == r.T {
 			r.count = fr.Field
 		}
+		// through a private helper with several results (count and size under one lock)
+		if ex, ok := v.(*ssa.Extract); ok {
+			if call, ok := ex.Tuple.(*ssa.Call); ok {
+				if h := helperCallee(call); h != nil {
+					for _, hv := range returnedValues(h, ex.Index) {
+						if fr, ok := asFieldLoad(hv); ok && fr.SName == r.T {
+							r.count = fr.Field
+						}
+					}
+				}
+			}
+		}
 	}
 	storedIn := func(f *ssa.Function) map[string]bool {
 		m := map[string]bool{}
@@ -103,6 +115,29 @@ func resolveBufRoles(p *Prog) *bufRoles {
 				m[fr.Field] = true
 			}
 		}
+		// a shared setter helper that stores through a pointer to the field: the field whose address this
+		// function passes
+		instrsOf(f, func(in ssa.Instruction) {
+			call, ok := in.(*ssa.Call)
+			if !ok {
+				return
+			}
+			h := helperCallee(call)
+			if h == nil {
+				return
+			}
+			for i, a := range call.Call.Args {
+				fr, ok := asFieldAddr(a)
+				if !ok || fr.SName != r.T || i >= len(h.Params) {
+					continue
+				}
+				instrsOf(h, func(x ssa.Instruction) {
+					if st, ok := x.(*ssa.Store); ok && st.Addr == ssa.Value(h.Params[i]) {
+						m[fr.Field] = true
+					}
+				})
+			}
+		})
 		return m
 	}
 	for f := range storedIn(r.SetLimitCount) {
